@@ -139,6 +139,11 @@ def run(chk, ctx):
                        [T.show(a)[:60] for a in p.kn.atoms],
                        detail={'expected': 'the value is None or a dict'},
                        site=site)
+            elif p.term is None or not p.segs:
+                # nothing is emitted on this path (the void encoder): there
+                # is nothing a wrong value could be turned into
+                chk.ob('C10.G', cons + ' type guard', True,
+                       'emits nothing', site=site)
             else:
                 chk.ob('C10.G', cons + ' type guard',
                        guarded or struct_only,
@@ -394,7 +399,16 @@ def truncation_check(chk, ctx):
     # the warning and the truncation sit under the same condition: find the
     # If statement containing the slice assignment
     okk = False
-    for n in ast.walk(fi.node):
+    # (the condition may live in a private helper the table writer calls)
+    fnodes = [fi.node]
+    for c_ in it.calls:
+        nm_ = c_[0]
+        if not nm_.endswith('[summarised]') and not nm_.endswith(
+                '[recursive]'):
+            f_ = prog.functions.get('pamqp.' + nm_.split(' ')[0])
+            if f_ is not None and f_.node not in fnodes:
+                fnodes.append(f_.node)
+    for n in (x for fn_ in fnodes for x in ast.walk(fn_)):
         if isinstance(n, ast.If):
             has_slice = any(isinstance(x, ast.Subscript) and
                             isinstance(x.slice, ast.Slice)
